@@ -72,7 +72,8 @@ PROPS = {
     "C06": {
         "level": "proof",
         "lean_modules": ["AnyTLS.Props.C06"],
-        "groups": [{"group": "auth", "quick_cases": 1000, "thorough_cases": 30000}],
+        "groups": [{"group": "auth", "quick_cases": 1000, "thorough_cases": 30000},
+                   {"group": "e2e", "only": "badpreamble", "quick_cases": 0, "thorough_cases": 40}],
         "rule": "fixed: all 256 single-bit deviations and all 32x255 single-byte substitutions of the hash, every truncation of a valid preamble (with and without EOF), declared padding lengths {0,1,2,255,256,257,65534,65535} complete and one byte short, hashes of 7 related passwords; "
                 "generated: right/wrong/near-miss hashes x declared lengths x following frames or garbage x truncation x up to 5 cuts of the byte stream; non-trivial = every case; distinct by SHA-1 of the op line",
         "level_text": "kernel-checked theorems over all byte strings: accept iff the first 32 bytes equal the expected hash and the declared padding has arrived (auth_accept_iff), reject iff 32 bytes are in and differ (auth_reject_iff: all 2^256-1 other strings), verdicts are stable under extension hence independent of fragmentation (auth_prefix_stable), the frame decoder starts exactly after the declared padding for every length 0..65535 (skip_exact), and no frame is ever acted on without an accepted preamble (no_session_without_accept). Tied to the code by a differential run of the real authenticate_client on a scripted reader and of the authenticate-then-Session sequence on the same reader",
@@ -83,7 +84,8 @@ PROPS = {
     "C07": {
         "level": "proof",
         "lean_modules": ["AnyTLS.Props.C07"],
-        "groups": [{"group": "dest", "quick_cases": 3000, "thorough_cases": 60000}],
+        "groups": [{"group": "dest", "quick_cases": 3000, "thorough_cases": 60000},
+                   {"group": "e2e", "only": "echo", "quick_cases": 4, "thorough_cases": 80}],
         "rule": "one case = one destination op or one resolver history: (a) real read_socks_addr / read_initial_request on a real StreamReader fed with the header cut into up to 5 chunks (incl. empty chunks), all address types, domain lengths {1,2,3,9,63,64,254,255}, ports {0,1,80,255,256,443,65534,65535,random}, IPv4-mapped IPv6, truncations, corrupted type/length bytes, non-UTF-8 names, channel open or closed; "
                 "(b) real Client::create_proxy_stream on a pool pre-seeded with an in-memory session, destination bytes captured from the wire, domains of 1..400 bytes; (c) resolver histories of 3-14 seed/expire/resolve/literal/localhost ops over 3 seeded hosts and 8 ports; every cut position of a short header as fixed cases; non-trivial = every case; distinct by SHA-1 of the op lines",
         "level_text": "kernel-checked theorems: for every well-formed destination, every tail and *every* reader state whose deliverable bytes are the encoding followed by the tail (i.e. every fragmentation across frames and reads) the server-side reader returns exactly that destination and leaves exactly the tail (dest_roundtrip, udp_request_roundtrip, via the fragmentation-independence of read_exact), names over 255 bytes are refused (encode_rejects_long), and for every cache state, history and resolver answer the address returned for (H,P) has port P and an IP of H (resolve_port, resolve_ip_of_host). Tied to the code by the dest differential run (real decoders, real client encoder, real resolver with seeded cache) and reference decoders as oracle",
@@ -94,7 +96,8 @@ PROPS = {
     "C15": {
         "level": "proof",
         "lean_modules": ["AnyTLS.Props.C15"],
-        "groups": [{"group": "dest", "quick_cases": 3000, "thorough_cases": 60000}],
+        "groups": [{"group": "dest", "quick_cases": 3000, "thorough_cases": 60000},
+                   {"group": "e2e", "only": "udp", "quick_cases": 3, "thorough_cases": 60}],
         "rule": "as C07's dest group; the C15 ops are dgenc (both encoders, sizes {0,1,2,255,256,1472,65506,65507,65535,65536,70000}) and dgdec (both readers on a real StreamReader fed with 1-5 datagrams of sizes {1..40,255,256,1472,65507,65535}, zero-length terminators, truncations, cut into up to 5 chunks incl. inside the length prefix); non-trivial = every case; distinct by SHA-1 of the op lines",
         "level_text": "kernel-checked theorems: every sequence of non-empty datagrams of up to 65535 bytes is read back as exactly the same datagrams, one result each, in order, for every reader state denoting the encoded stream, i.e. every fragmentation (dgram_roundtrip, dgram_roundtrip_one), nothing is produced from an empty stream (readDgram_empty), the encoders refuse oversize and emit an exact prefix (encode_dgram_exact), a zero prefix is the end marker (zero_prefix_is_end), a datagram of <= 65507 bytes rides in one data frame (dgram_single_frame), the initial request round-trips (initial_request_roundtrip); Gen obligation gen_udp_max. Delivery of the byte stream itself is C01. Tied to the code by the dest differential run on the real encoders/readers with a reference splitter as oracle",
         "level_note": "trusted: Lean kernel, extract.py, harness+driver glue; kernel UDP behaviour (drops, the relay's IPv4-only bind, replies accepted from any source address) is not modelled; socket delivery is exercised by the e2e group",
@@ -105,13 +108,59 @@ PROPS = {
         "level": "proof",
         "lean_modules": ["AnyTLS.Props.C19"],
         "groups": [{"group": "push", "quick_cases": 300, "thorough_cases": 5000},
-                   {"group": "sess", "quick_cases": 300, "thorough_cases": 5000}],
+                   {"group": "sess", "quick_cases": 300, "thorough_cases": 5000},
+                   {"group": "e2e", "only": "pushe2e", "quick_cases": 0, "thorough_cases": 3}],
         "rule": "push case = one client process: 4-22 ops over up to ~4 sessions: new session (given the scheme the real Client would give it), pushes of parseable schemes (scheme generator), unparseable schemes, empty payloads, unrelated frames, packets of 7..507 bytes with injected draws, state queries; ends with a state query of every session and one more new session; "
                 "fixed regression case: default used, two pushes in a row, new session; the server-side rule (push iff the announced md5 differs) is exercised by the sess group (server role, Settings frames with matching / differing md5); non-trivial = at least one push; distinct by SHA-1 of the op lines",
         "level_text": "kernel-checked theorems: a parseable push makes the session adopt exactly the pushed scheme and disturbs nothing else (push_adopts), every later packet of that session is accepted by the statement's acceptor for the *pushed* scheme (push_switches_session, C05 instantiated), an unparseable / empty push changes nothing (bad_push_ignored), the process-wide default becomes the pushed scheme (push_sets_default), sessions opened afterwards use and announce it (new_session_uses_default) so the server does not push again (server_pushes_iff_differs), and all of this for the n-th push after any history (nth_push_takes_effect). Tied to the code by the push differential run (real sessions, real process-wide default, the scheme a real Client hands to new sessions) with independent oracles (reference scheme parser + acceptor, adopted md5s)",
         "level_note": "trusted: Lean kernel, extract.py, harness+driver glue; MD5 is an opaque function in the theorems (an executable MD5 is used by the driver only); session creation through a real dial (Client::create_new_session) is exercised by the e2e group, the in-process run uses the hook Client::verif_padding which calls the same PaddingFactory::effective",
         "assumptions": COMMON_ASSUMPTIONS,
         "explanation": "push/adoption theorems + push correspondence",
+    },
+    "C08": {
+        "level": "proof",
+        "lean_modules": ["AnyTLS.Props.C08"],
+        "groups": [{"group": "sess", "quick_cases": 600, "thorough_cases": 20000},
+                   {"group": "pipe", "quick_cases": 200, "thorough_cases": 3000},
+                   {"group": "e2e", "only": "halfclose,targetclose", "quick_cases": 0, "thorough_cases": 60}],
+        "rule": "sess/pipe cases as for C02/C01 (FIN frames for known, unknown and finished ids interleaved with data, reads at every stage); e2e scenarios on real loopback: application half-close / stream drop through SOCKS5 and through Client::create_proxy_stream with 0..200000 bytes in flight, target close after 0..200000 bytes; non-trivial = more than 3 ops / every e2e scenario; distinct by SHA-1 of the op lines",
+        "level_text": "kernel-checked theorems for the receive half: a received FIN keeps everything queued before it and the reader then obtains exactly those bytes followed by end of stream, never earlier (fin_after_data, closed_reader_read), removes exactly its own stream from both tables (fin_releases) and leaves the send direction untouched (fin_leaves_send_direction). The send half (a forwarder that sees local EOF emits FIN after its data; finished streams leave the tables) is FALSE of the code: the full statement is kept as local_close_propagates with the kernel-checked refutation local_close_propagates_refuted, replayed end to end on the real code and listed as known findings per call site (KNOWN_FINDINGS.txt); the check exits 0 with KNOWN-FINDING lines and reports any other violation",
+        "level_note": "trusted: Lean kernel, extract.py, harness+driver glue; the e2e observations 'no end of stream within 500 ms' are negative observations on real loopback sockets (they can only confirm the known finding, never raise a new alarm); repairing the send half is a feature completion (ordered close marker through the per-session data queue + table cleanup on both sides), not a small patch",
+        "assumptions": COMMON_ASSUMPTIONS,
+        "explanation": "FIN receive-half theorems + sess/pipe correspondence + e2e known findings",
+    },
+    "C10": {
+        "level": "proof",
+        "lean_modules": ["AnyTLS.Props.C10"],
+        "groups": [{"group": "open", "quick_cases": 600, "thorough_cases": 20000},
+                   {"group": "e2e", "only": "refused,early,echo", "quick_cases": 0, "thorough_cases": 60}],
+        "rule": "open case = real Client::create_proxy_stream on a pool pre-seeded with a session on an in-memory transport, virtual time on a 10 ms grid; 1-6 racing requests; the harness plays the server: SYNACK ok / with failure text / duplicated and contradicting / for unknown and not-yet-used ids, before, at 29.98..30.01 s and after the deadline, FIN before the answer, Alert, transport EOF and owner close during the wait, data frames; every request is polled at the end; "
+                "e2e: refused target, bytes pipelined behind the CONNECT request, echo; non-trivial = every case; distinct by SHA-1 of the op lines",
+        "level_text": "kernel-checked theorems over the timed model: an outcome once set is never changed by any later event of any kind (first_outcome_wins, all event histories), every request has an outcome once its 30 s have passed (outcome_total), a timeout outcome arises only at its deadline with the slot unresolved (timeout_only_after_deadline), success is reported exactly when the slot holds the server's positive acknowledgement (verdict_ok_iff), a failure text or the session dying never yields success (synack_error_never_ok, close_never_ok, notify_first_wins), slots of different ids are independent (slots_independent), the server acknowledges positively and starts forwarding only after the dial succeeded (ok_only_after_connect); Gen obligation gen_timeout. Tied to the code by the open differential run (exact outcome and instant of every request) and an independent first-resolving-event oracle",
+        "level_note": "trusted: Lean kernel, extract.py, harness+driver glue; tokio oneshot = first send wins, timeout fires at its deadline (virtual clock); the front-ends' reply gating is C16/C17; the real dial is exercised by the e2e group",
+        "assumptions": COMMON_ASSUMPTIONS,
+        "explanation": "open-wait model theorems + open correspondence + e2e",
+    },
+    "C12": {
+        "level": "proof",
+        "lean_modules": ["AnyTLS.Props.C12"],
+        "groups": [{"group": "pool", "quick_cases": 1000, "thorough_cases": 30000},
+                   {"group": "e2e", "only": "reaper", "quick_cases": 0, "thorough_cases": 5}],
+        "rule": "pool case = the real SessionPool (with its periodic reaper task) and real client sessions under virtual time on a 10 ms grid: 4-30 ops from {mk, add i, get, die i, cleanup, adv {10..1000} ms, open i, state} with check interval in {50,100,200,500} ms, idle timeout in {50..1000} ms, min_idle in {0,1,2,5}; e2e reaper on real loopback; non-trivial = more than 4 ops; distinct by SHA-1 of the op lines",
+        "level_text": "kernel-checked theorems about the transcriptions of the two loops, for all idle lists, closed flags, clock values and settings: the pool never returns a closed session and drops every closed entry it skipped (get_not_closed), after a reaper pass no idle entry is closed (cleanup_purges), the reaper closes only expired entries (reaper_closes_only_expired), never leaves fewer than min(min_idle, available) (cleanup_min), and leaves exactly min(min_idle, n) when all are expired (cleanup_surplus). The clause 'closes only sessions with no open stream' is FALSE of the code: kept as reaper_spares_busy with the kernel-checked refutation reaper_spares_busy_refuted, replayed on the real pool and end to end, listed as a known finding. Tied to the code by the pool differential run (which session get returns, idle count, closed set after every op, exact reaper timing)",
+        "level_note": "trusted: Lean kernel, extract.py, harness+driver glue; tokio interval: first tick immediate, then every period (virtual clock); concurrent requests on an empty pool dial concurrently (each creates its own session; not a correctness issue of the pool maps, which are behind one RwLock)",
+        "assumptions": COMMON_ASSUMPTIONS,
+        "explanation": "pool loop theorems + pool correspondence + known finding",
+    },
+    "C13": {
+        "level": "proof",
+        "lean_modules": ["AnyTLS.Props.C13"],
+        "groups": [{"group": "e2e", "only": "reuse", "quick_cases": 3, "thorough_cases": 40}],
+        "rule": "e2e reuse n = n sequential non-overlapping Client::create_proxy_stream calls (n in 2..12, fixed n = 6) against a real server on loopback behind a counting TCP relay; observed: identity of the session serving each request (renumbered) and number of TLS connections; the Lean pool model predicts both (sequentialRun) and the prediction is compared line by line; non-trivial = every case; distinct by SHA-1 of the op lines",
+        "level_text": "the property is FALSE of the code and recorded as a known finding: both full statements are kept (sequential_reuse, bounded_sessions) with kernel-checked refutations (sequential_reuse_refuted: three sequential requests dial twice; bounded_sessions_refuted: six requests leave three sessions open) and the model predicts the real client's behaviour exactly (sessions [0,0,1,1,2,2,...], ceil(n/2) dials; sequential_dials_instances). What does hold is proved: the second of two non-overlapping requests reuses the first one's session for every pool setting (second_request_reuses_partial) and a request dials only when no open idle session exists (dial_only_when_no_idle). Any deviation from the predicted behaviour, in either direction, breaks the correspondence and is reported",
+        "level_note": "trusted: Lean kernel, extract.py, harness+driver glue; real loopback TLS sessions; the repair (return the session to the pool when its stream ends) depends on stream completion being tracked (C08's finding)",
+        "assumptions": COMMON_ASSUMPTIONS,
+        "explanation": "pool/request model with refutations + e2e correspondence + known finding",
     },
 }
 
